@@ -233,7 +233,22 @@ def c05b(ck, prog):
     ck.ob(R, "send-after-handle", ok, f.loc(hc.sp), "" if ok else "after the router ran, the loop can continue (%s) without sending the response" % ", ".join(bad), how="every path handle -> (next clear | exit) passes Response::send")
     # the Err(res) edge of read passes send
     errsend = [c for c in sends if any(fa.kind == "variant" and fa.allowed == {"Err"} and fa.steps and fa.steps[-1][0] == "call" and rdpoll and fa.steps[-1][1].bb == rdpoll[0].bb for fa in guards.facts_at(f, prog, c.bb))]
-    ck.ob(R, "error-response-sent", bool(errsend), f.loc(read.sp), "" if errsend else "the error response of a refused request is not sent", how="Err(res) => res.send()")
+    # ... on every path: from the Err edge, neither the next iteration nor the loop exit is reached without a send
+    err_ok = bool(errsend)
+    if errsend and rdpoll:
+        for sb in sorted(f.live_blocks()):
+            if f.blocks[sb]["t"]["k"] != "switch" or f.is_cleanup(sb):
+                continue
+            for tb, lab in f.succ(sb):
+                try:
+                    facts = guards.derive(f, prog, guards.edge_facts(f, prog, sb, {lab}))
+                except Exception:
+                    facts = []
+                if any(fa.kind == "variant" and fa.allowed == {"Err"} and fa.steps and fa.steps[-1][0] == "call" and fa.steps[-1][1].bb == rdpoll[0].bb for fa in facts):
+                    aft = f.reachable_from(tb, avoid=send_blocks)
+                    if clear.bb in aft or (aft & exits):
+                        err_ok = False
+    ck.ob(R, "error-response-sent", err_ok, f.loc(read.sp), "" if err_ok else "the error response of a refused request is not sent on every path (the loop goes on, or ends, without Response::send after read() answered Err)", how="Err(res) => res.send() on every path")
     # (3) close: read from the request headers before handle, acted on after send
     conn = [c for c in f.calls_to(r"request::headers::(_::)?<impl ohkami::request::headers::Headers>::Connection$|request::headers::Headers::Connection$")]
     ok = len(conn) == 1 and f.dominates(conn[0].bb, hb)
